@@ -41,6 +41,7 @@ func (p *BinaryProtocol) Skip(wireType proto.WireType, useNative bool) (err erro
 }
 
 // fast skip all elements in LIST/MAP
+// size is the count of the skipped elements, except for packed fixed32/fixed64 elements (see below)
 func (p *BinaryProtocol) SkipAllElements(fieldNumber proto.FieldNumber, ispacked bool) (size int, err error) {
 	size = 0
 	if ispacked {
@@ -59,12 +60,16 @@ func (p *BinaryProtocol) SkipAllElements(fieldNumber proto.FieldNumber, ispacked
 		if err != nil {
 			return -1, err
 		}
-		start := p.Read
-		for p.Read < start+int(bytelen) {
-			if _, err := p.ReadVarint(); err != nil {
-				return -1, err
+		end := p.Read + bytelen
+		if bytelen < 0 || end > len(p.Buf) {
+			return -1, errDecodeField
+		}
+		// the packed elements are varints or fixed-width values, which is not known here: skip them by the byte
+		// length and count the bytes that end a varint, so that size is only meaningful for varint elements
+		for ; p.Read < end; p.Read++ {
+			if p.Buf[p.Read] < 0x80 {
+				size++
 			}
-			size++
 		}
 	} else {
 		for p.Read < len(p.Buf) {
